@@ -95,12 +95,33 @@ def main(argv=None):
 
     # ---- tie + proactive oracle --------------------------------------------------
     driver_ok = os.path.exists(common.DRIVER)
+
+    def guarded(fn, stage):
+        """An exception raised INSIDE the implementation on an input the check generated as legal
+        is a finding about the implementation (reported with the call stack as replay), not an
+        infrastructure failure; anything else propagates (exit 2)."""
+        try:
+            fn()
+        except common.DriverError:
+            raise
+        except Exception as e:
+            repo = os.path.realpath(common.REPO) + os.sep
+            tb = traceback.extract_tb(e.__traceback__)
+            inside = [f for f in tb if os.path.realpath(f.filename).startswith(repo)]
+            if not inside:
+                raise
+            last = inside[-1]
+            ctx.violation('implementation-raises:%s' % last.name,
+                          'the implementation raised %s in %s (%s:%d) on an input the check generated as legal: %s'
+                          % (type(e).__name__, last.name, os.path.relpath(last.filename, repo), last.lineno, str(e)[:200]),
+                          {'stage': stage, 'call_stack': ['%s:%d %s' % (os.path.basename(f.filename), f.lineno, f.name) for f in tb][-8:]},
+                          repr(e)[:300], 'a result')
     try:
         if driver_ok:
-            mod.run(ctx)
+            guarded(lambda: mod.run(ctx), 'correspondence / proactive oracle')
         else:
             ctx.notes.append('driver missing (build failed): correspondence not run')
-            mod.oracle(ctx, budget_s=120 if tier == 'quick' else 900)
+            guarded(lambda: mod.oracle(ctx, budget_s=120 if tier == 'quick' else 900), 'oracle')
     except common.DriverError as e:
         print('infrastructure failure (driver):', e)
         return 2
@@ -110,7 +131,7 @@ def main(argv=None):
     searched = False
     if (not proof['ok'] or tie_broken) and not ctx.violations:
         searched = True
-        mod.oracle(ctx, budget_s=60 if tier == 'quick' else 900)
+        guarded(lambda: mod.oracle(ctx, budget_s=60 if tier == 'quick' else 900), 'failing-input search')
 
     # ---- verdict -----------------------------------------------------------------
     known = common.load_known_findings()
